@@ -225,7 +225,7 @@ def run_json(cmd, timeout=3600, env=None, cwd=None):
         raise Inconclusive("%s did not finish within %ss" % (" ".join(cmd[:3]), timeout))
     if p.returncode != 0:
         raise Inconclusive("%s exited %d:\n%s" % (" ".join(cmd[:3]), p.returncode, (p.stderr or p.stdout)[-3000:]))
-    lines = [l for l in p.stdout.splitlines() if l.startswith("{")]
+    lines = [l for l in p.stdout.split("\n") if l.startswith("{")]      # (not splitlines: U+0085, U+2028, FF inside a JSON string are not line ends)
     if not lines:
         raise Inconclusive("%s printed no report:\n%s" % (cmd[0], p.stdout[-2000:] + p.stderr[-2000:]))
     return json.loads(lines[-1])
